@@ -115,6 +115,13 @@ func checkC02(c CaseC02, info *Info) *Failure {
 	if err != nil {
 		return failf("encode-error", "opts %+v doc %q map %#v: %v", c.Opts, doc, m1, err)
 	}
+	// the other encoder, and other Maps, are encoded before the result is used
+	if c.Indent {
+		m1.Xml()
+	} else {
+		m1.XmlIndent(c.Prefix, c.Ind)
+	}
+	disturb()
 	if werr := wellFormedSingleRoot(x); werr != nil {
 		return failf("not-well-formed", "opts %+v doc %q -> %q: %v", c.Opts, doc, x, werr)
 	}
